@@ -422,8 +422,6 @@ def run(tier, rep):
                     go_recs.append(rec)
     rep.coverage["histories_linked"] = stale_links
     rep.coverage["histories_refused_by_link"] = stale_refused
-    if stale_links < 6 or stale_refused < 3:
-        raise ToolError(f"vacuity: history family linked {stale_links}, refused {stale_refused}")
     # ---- GoStatic + GoSem over all Go texts; linked outcome must equal the whole-program outcome of the same (shape, flavour)
     static, st1 = gopipe.run_sharded("GoStatic", "GoStatic.cfg", go_recs, name="c14-static")
     sem_recs = [dict(rc, ast=gohoist.hoist(rc["ast"])) for rc in go_recs]
@@ -454,3 +452,5 @@ def run(tier, rep):
     rep.assumptions += ["four DAG shapes over four packages; all 24 build orders each (thorough) or 4 per shape (quick); three content flavours"]
     if compared < 4:
         raise ToolError("vacuity: fewer than 4 linked programs compared with their whole-program compilation")
+    if not rep.violations and (stale_links < 6 or stale_refused < 3):
+        raise ToolError(f"vacuity: history family linked {stale_links}, refused {stale_refused}")
